@@ -107,18 +107,29 @@ class TlcResult:
         for m in re.finditer(r"^<(\w+) line \d+, col \d+ to line \d+, col \d+ of module (\w+)>: (\d+):(\d+)", out, re.M):
             self.action_cov[m.group(1)] = self.action_cov.get(m.group(1), 0) + int(m.group(4))
 
+    def printed_raw(self, tag):
+        """Strings printed with PrintT(<<tag, "...">>); TLC wraps long tuples over several lines."""
+        pat = re.compile(r'<<\s*"' + re.escape(tag) + r'",\s*"((?:[^"\\]|\\.)*)"\s*>>', re.S)
+        return [m.group(1).replace('\\"', '"').replace("\\\\", "\\") for m in pat.finditer(self.out)]
+
+    def printed_int(self, tag):
+        """Last integer printed with PrintT(<<tag, n>>), or None."""
+        m = re.findall(r'<<\s*"' + re.escape(tag) + r'",\s*(-?\d+)\s*>>', self.out)
+        return int(m[-1]) if m else None
+
+    def printed_last(self, tag):
+        """Last JSON value printed with PrintT(<<tag, ToJson(x)>>), or None."""
+        v = self.printed(tag)
+        return v[-1] if v else None
+
     def printed(self, tag):
         """Values printed with PrintT(<<tag, x>>) where x is a JSON string."""
         res = []
-        for line in self.out.splitlines():
-            line = line.strip()
-            if line.startswith(f'<<"{tag}", "') and line.endswith('">>'):
-                body = line[len(f'<<"{tag}", "'):-3]
-                body = body.replace('\\"', '"').replace("\\\\", "\\")
-                try:
-                    res.append(json.loads(body))
-                except json.JSONDecodeError as e:
-                    raise ToolError(f"bad JSON from TLC ({tag}): {e}: {body[:200]}")
+        for body in self.printed_raw(tag):
+            try:
+                res.append(json.loads(body))
+            except json.JSONDecodeError as e:
+                raise ToolError(f"bad JSON from TLC ({tag}): {e}: {body[:200]}")
         return res
 
 
